@@ -311,6 +311,93 @@ let run_src id rest =
            | Panic _ -> id ^ " panic")))
   | _ -> id ^ " bad-case"
 
+(* ---- CFG ---- *)
+let key_names = [ (1,"block_size"); (2,"multithread"); (3,"workers"); (4,"stereo_coding"); (5,"subframe_coding");
+  (6,"use_leftside"); (7,"use_rightside"); (8,"use_midside"); (9,"use_constant"); (10,"use_fixed"); (11,"use_lpc");
+  (12,"fixed"); (13,"qlpc"); (14,"prc"); (15,"max_order"); (16,"order_sel"); (17,"type"); (18,"partitions");
+  (19,"lpc_order"); (20,"quant_precision"); (21,"use_direct_mse"); (22,"mae_optimization_steps"); (23,"window");
+  (24,"alpha"); (25,"max_parameter") ]
+let str_names = [ (1,"BitCount"); (2,"ApproxEnt"); (3,"Rectangle"); (4,"Tukey") ]
+let code_of tbl name = try fst (Stdlib.List.find (fun (_, n) -> n = name) tbl) with Not_found -> 1000 + (Hashtbl.hash name mod 1000)
+let name_of tbl code = try Stdlib.List.assoc code tbl with Not_found -> "?" ^ string_of_int code
+
+let rec canon_tv (v : Config.tv) : string =
+  match v with
+  | Config.TInt z -> "i" ^ (match z with Z0 -> "0" | Zpos p -> dec_of_n (Npos p) | Zneg p -> "-" ^ dec_of_n (Npos p))
+  | Config.TBool b -> if b then "b1" else "b0"
+  | Config.TFloat bits -> "f" ^ dec_of_n bits
+  | Config.TStr s -> "s" ^ name_of str_names (int_of_n s)
+  | Config.TTable kvs ->
+    let items = Stdlib.List.map (fun (k, v) -> name_of key_names (int_of_n k) ^ ":" ^ canon_tv v) kvs in
+    "{" ^ Stdlib.String.concat "," (Stdlib.List.sort compare items) ^ "}"
+
+let parse_doc (s : string) : Config.tv =
+  let i = ref 0 in
+  let n = Stdlib.String.length s in
+  let rec pv () : Config.tv =
+    if s.[!i] = '{' then begin
+      incr i; let items = ref [] in
+      while s.[!i] <> '}' do
+        let st = !i in while s.[!i] <> ':' do incr i done;
+        let k = Stdlib.String.sub s st (!i - st) in incr i;
+        let v = pv () in items := (n_of_int (code_of key_names k), v) :: !items;
+        if s.[!i] = ',' then incr i
+      done;
+      incr i; Config.TTable (Stdlib.List.rev !items)
+    end else begin
+      let c = s.[!i] in incr i; let st = !i in
+      while !i < n && s.[!i] <> ',' && s.[!i] <> '}' do incr i done;
+      let body = Stdlib.String.sub s st (!i - st) in
+      match c with
+      | 'i' -> Config.TInt (z_of_i64_string body)
+      | 'b' -> Config.TBool (body = "1")
+      | 'f' -> Config.TFloat (n_of_u64_string body)
+      | _ -> Config.TStr (n_of_int (code_of str_names body))
+    end in
+  pv ()
+
+let encode_cfg (c : Encoder.config) : string =
+  let b x = if x then "1" else "0" in
+  let d = dec_of_n in
+  Printf.sprintf "bs=%s;mt=%s;w=%s;ls=%s;rs=%s;ms=%s;uc=%s;uf=%s;ul=%s;fo=%s;os=%s;lo=%s;qp=%s;dm=%s;ma=%s;win=%s;mp=%s"
+    (d c.Encoder.cfg_block_size) (b c.Encoder.cfg_multithread) (match c.Encoder.cfg_workers with None -> "-" | Some w -> d w)
+    (b c.Encoder.cfg_use_leftside) (b c.Encoder.cfg_use_rightside) (b c.Encoder.cfg_use_midside)
+    (b c.Encoder.cfg_use_constant) (b c.Encoder.cfg_use_fixed) (b c.Encoder.cfg_use_lpc)
+    (d c.Encoder.cfg_fixed_max_order) (match c.Encoder.cfg_order_sel with None -> "bc" | Some p -> d p)
+    (d c.Encoder.cfg_lpc_order) (d c.Encoder.cfg_quant_precision) (b c.Encoder.cfg_use_direct_mse) (d c.Encoder.cfg_mae_steps)
+    (match c.Encoder.cfg_window with None -> "r" | Some bits -> "t" ^ d bits) (d c.Encoder.cfg_max_parameter)
+
+let parse_cfg_big (s : string) : Encoder.config =
+  (* like parse_cfg but with numbers beyond OCaml's int *)
+  let kv = Stdlib.List.map (fun x -> match split_on '=' x with [k; v] -> (k, v) | _ -> failwith "cfg") (split_on ';' s) in
+  let g k = Stdlib.List.assoc k kv in
+  let b k = g k = "1" in
+  let n k = n_of_u64_string (g k) in
+  { Encoder.cfg_block_size = n "bs"; cfg_multithread = b "mt";
+    cfg_workers = (if g "w" = "-" then None else Some (n "w"));
+    cfg_use_leftside = b "ls"; cfg_use_rightside = b "rs"; cfg_use_midside = b "ms";
+    cfg_use_constant = b "uc"; cfg_use_fixed = b "uf"; cfg_use_lpc = b "ul";
+    cfg_fixed_max_order = n "fo";
+    cfg_order_sel = (if g "os" = "bc" then None else Some (n "os"));
+    cfg_lpc_order = n "lo"; cfg_quant_precision = n "qp"; cfg_use_direct_mse = b "dm"; cfg_mae_steps = n "ma";
+    cfg_window = (let w = g "win" in if w = "r" then None else Some (n_of_u64_string (Stdlib.String.sub w 1 (Stdlib.String.length w - 1))));
+    cfg_max_parameter = n "mp" }
+
+let experimental_build = (int_of_n Generated.c_FEATURE_EXPERIMENTAL = 1)
+
+let run_cfg id rest =
+  match Str.bounded_split (Str.regexp_string " ") rest 2 with
+  | ["V"; body] -> if Config.verify experimental_build (parse_cfg_big body) then id ^ " ok" else id ^ " err"
+  | ["S"; body] -> Printf.sprintf "%s ok %s" id (canon_tv (Config.TTable (Config.to_doc (parse_cfg_big body))))
+  | ["P"; body] ->
+    (match parse_doc body with
+     | Config.TTable kvs ->
+       (match Config.from_doc kvs with
+        | Ok c -> Printf.sprintf "%s ok %s verify=%d" id (encode_cfg c) (if Config.verify experimental_build c then 1 else 0)
+        | _ -> id ^ " err")
+     | _ -> id ^ " err")
+  | _ -> id ^ " bad-case"
+
 let run_line (line : string) : string =
   match split_on ' ' line with
   | stream :: id :: _ ->
@@ -326,6 +413,7 @@ let run_line (line : string) : string =
        | "CNT" -> run_cnt id rest
        | "FAIL" -> run_fail id rest
        | "SRC" -> run_src id rest
+       | "CFG" -> run_cfg id rest
        | "RICE" -> run_rice id rest
        | _ -> id ^ " unknown-stream")
      with Stack_overflow -> id ^ " model-stack-overflow")
